@@ -42,6 +42,40 @@ impl std::fmt::Display for Refused {
 }
 impl std::error::Error for Refused {}
 
+/// A caller-chosen erased error type with a DEDICATED conversion from the wrapped operator's error
+/// and a catch-all conversion from a boxed error: "the error is the wrapped operator's error
+/// converted" means the dedicated conversion is the one used (it renders exactly like the
+/// concrete error; the catch-all renders differently).
+#[derive(Debug)]
+enum Tagged {
+    Dedicated(&'static str),
+    CatchAll(String),
+}
+impl std::fmt::Display for Tagged {
+    fn fmt(&self, f: &mut std::fmt::Formatter<'_>) -> std::fmt::Result {
+        match self {
+            Self::Dedicated(who) => write!(f, "refused by {who}"),
+            Self::CatchAll(text) => write!(f, "CATCH-ALL conversion of: {text}"),
+        }
+    }
+}
+impl std::error::Error for Tagged {}
+impl From<Refused> for Tagged {
+    fn from(r: Refused) -> Self {
+        Self::Dedicated(r.0)
+    }
+}
+impl From<BoxErr> for Tagged {
+    fn from(e: BoxErr) -> Self {
+        Self::CatchAll(e.to_string())
+    }
+}
+impl From<std::convert::Infallible> for Tagged {
+    fn from(e: std::convert::Infallible) -> Self {
+        match e {}
+    }
+}
+
 /// always fails, after drawing one word
 struct Failing;
 /// succeeds, drawing a data-dependent number of words
@@ -287,6 +321,11 @@ type DO<'a> = dyn DynOperator<u64, BoxErr, Output = u64> + 'a;
 type DOs<'a> = dyn DynOperator<u64, BoxErr, Output = u64> + Send + 'a;
 type DOy<'a> = dyn DynOperator<u64, BoxErr, Output = u64> + Sync + 'a;
 type DOsy<'a> = dyn DynOperator<u64, BoxErr, Output = u64> + Send + Sync + 'a;
+type DSt<'a> = dyn DynSelector<Pop, Tagged> + 'a;
+type DMt<'a> = dyn DynMutator<Vec<bool>, Tagged> + 'a;
+type DRt<'a> = dyn DynRecombinator<[Vec<bool>; 2], Tagged, Output = Vec<bool>> + 'a;
+type DOt<'a> = dyn DynOperator<u64, Tagged, Output = u64> + 'a;
+type DCt<'a> = dyn DynChildMaker<Pop, Tournament, Tagged> + 'a;
 type DC<'a> = dyn DynChildMaker<Pop, Tournament, BoxErr> + 'a;
 type DCs<'a> = dyn DynChildMaker<Pop, Tournament, BoxErr> + Send + 'a;
 type DCy<'a> = dyn DynChildMaker<Pop, Tournament, BoxErr> + Sync + 'a;
@@ -348,6 +387,11 @@ fn trace(args: &[String]) -> i32 {
         selector!("failing", Failing);
         selector!("var_words", VarWords);
         selector!("bytes", Bytes);
+        // a caller-chosen error type: the wrapped operator's own error, through its dedicated conversion
+        emit(&mut out, "selector", "failing/custom_error", all_forms!(s, Failing, [DSt<'_>], |w, rng| {
+            let pop = population(a);
+            show(Selector::select(&w, &pop, rng).map(|i| pop.iter().position(|p| std::ptr::eq(p, i))))
+        }));
         macro_rules! mutator {
             ($imp:expr, $c:expr) => {
                 emit(&mut out, "mutator", $imp, all_forms!(s, $c, [DM<'_>, DMs<'_>, DMy<'_>, DMsy<'_>], |w, rng| {
@@ -360,6 +404,9 @@ fn trace(args: &[String]) -> i32 {
         mutator!("failing", Failing);
         mutator!("var_words", VarWords);
         mutator!("bytes", Bytes);
+        emit(&mut out, "mutator", "failing/custom_error", all_forms!(s, Failing, [DMt<'_>], |w, rng| {
+            show(Mutator::mutate(&w, genome(a, 7), rng))
+        }));
         macro_rules! recombinator {
             ($imp:expr, $c:expr) => {
                 emit(&mut out, "recombinator", $imp, all_forms!(s, $c, [DR<'_>, DRs<'_>, DRy<'_>, DRsy<'_>], |w, rng| {
@@ -372,6 +419,9 @@ fn trace(args: &[String]) -> i32 {
         recombinator!("failing", Failing);
         recombinator!("var_words", VarWords);
         recombinator!("bytes", Bytes);
+        emit(&mut out, "recombinator", "failing/custom_error", all_forms!(s, Failing, [DRt<'_>], |w, rng| {
+            show(Recombinator::recombine(&w, [genome(a, 8), genome(a, 9)], rng))
+        }));
         macro_rules! operator {
             ($imp:expr, $c:expr) => {
                 emit(&mut out, "operator", $imp, all_forms!(s, $c, [DO<'_>, DOs<'_>, DOy<'_>, DOsy<'_>], |w, rng| {
@@ -383,6 +433,9 @@ fn trace(args: &[String]) -> i32 {
         operator!("failing", Failing);
         operator!("var_words", VarWords);
         operator!("bytes", Bytes);
+        emit(&mut out, "operator", "failing/custom_error", all_forms!(s, Failing, [DOt<'_>], |w, rng| {
+            show(Operator::apply(&w, a, rng))
+        }));
         macro_rules! child_maker {
             ($imp:expr, $c:expr) => {
                 emit(&mut out, "child_maker", $imp, all_forms!(s, $c, [DC<'_>, DCs<'_>, DCy<'_>, DCsy<'_>], |w, rng| {
@@ -395,6 +448,11 @@ fn trace(args: &[String]) -> i32 {
         child_maker!("cloner", Cloner);
         child_maker!("failing", Failing);
         child_maker!("bytes", Bytes);
+        emit(&mut out, "child_maker", "failing/custom_error", all_forms!(s, Failing, [DCt<'_>], |w, rng| {
+            let pop = population(a);
+            let sel = Tournament::new(NonZeroUsize::new(2).expect("k"));
+            show(ChildMaker::make_child(&w, rng, &pop, &sel).map(|c| (c.genome, c.test_results.total_result)))
+        }));
     }
     out.finish();
     0
